@@ -23,7 +23,7 @@ pub const INFO: PropInfo = PropInfo {
         "all atomics involved are SeqCst, so interleaving at the six scheduling points is complete for this protocol (DESIGN.md 2.5)",
         "the oracle names no deadline while sessions are still running; every session ends by itself (client closes, or keep-alive timeout)",
     ],
-    expected_probes: &["c18.signal_during_first_poll", "c18.signal_between_checked_and_published", "c18.sessions_in_flight_at_signal", "c18.late_connect_refused", "c18.second_signal", "c18.slow_handler_finished_after_signal", "c18.spinner_rule_engaged", "c18.signal_with_no_sessions", "c18.session_ended_by_panic", "c18.sse_stream_in_flight", "c18.accept_failed", "c18.connect_attempt_after_handler_returned", "c18.keepalive_timeout_raised", "c18.session_in_flight_more_than_45s_after_the_interrupt", "c18.preempted_at_an_access_to_the_wait_group_counter"],
+    expected_probes: &["c18.signal_during_first_poll", "c18.signal_between_checked_and_published", "c18.sessions_in_flight_at_signal", "c18.late_connect_refused", "c18.second_signal", "c18.slow_handler_finished_after_signal", "c18.spinner_rule_engaged", "c18.signal_with_no_sessions", "c18.session_ended_by_panic", "c18.sse_stream_in_flight", "c18.accept_failed", "c18.connect_attempt_after_handler_returned", "c18.keepalive_timeout_raised", "c18.session_in_flight_more_than_45s_after_the_interrupt", "c18.preempted_at_an_access_to_the_wait_group_counter", "c18.howl_future_moved_to_another_task"],
 };
 
 #[derive(Clone, Debug, Serialize, Deserialize)]
@@ -65,6 +65,10 @@ pub struct Scenario {
     /// be in flight for minutes after the interrupt
     #[serde(default)]
     pub keepalive_s: Option<u64>,
+    /// the `howl` future is polled once by one task (a start-up probe such as `timeout(.., &mut howl)`) and then awaited
+    /// by another: from the second poll on it is polled with a different waker
+    #[serde(default)]
+    pub moved: bool,
 }
 
 pub fn generate(_cfg: &RunCfg, _out: &mut Outcome) -> Scenario {
@@ -99,7 +103,7 @@ pub fn generate(_cfg: &RunCfg, _out: &mut Outcome) -> Scenario {
     } else {
         Vec::new()
     };
-    Scenario { clients, sigint_ms, second_sigint_after_ms: if t::chance(1, 5) { Some(t::pick(&[0u64, 1, 100, 10_000])) } else { None }, server_first: !due_at_start && t::chance(1, 2), due_at_start, accept_errors, keepalive_s }
+    Scenario { clients, sigint_ms, second_sigint_after_ms: if t::chance(1, 5) { Some(t::pick(&[0u64, 1, 100, 10_000])) } else { None }, server_first: !due_at_start && t::chance(1, 2), due_at_start, accept_errors, keepalive_s, moved: t::chance(1, 6) }
 }
 
 pub fn run(cfg: &RunCfg, direct: Option<&serde_json::Value>) -> Outcome {
@@ -273,9 +277,33 @@ fn execute(sc: &Scenario, out: &mut Outcome) {
             }
         }),
     ));
-    let server = simcore::spawn_task("server", "server", async move {
-        app.howl(rt::ADDR).await;
-    });
+    let server = if sc.moved {
+        out.probe("c18.howl_future_moved_to_another_task");
+        type Boxed = std::pin::Pin<Box<dyn std::future::Future<Output = ()>>>;
+        let hand_over: Rc<RefCell<Option<Boxed>>> = Rc::new(RefCell::new(None));
+        let (h1, h2) = (hand_over.clone(), hand_over.clone());
+        let mut fut: Boxed = Box::pin(async move {
+            app.howl(rt::ADDR).await;
+        });
+        let starter = simcore::spawn_task("server-starter", "client", async move {
+            let ready = std::future::poll_fn(|cx| std::task::Poll::Ready(fut.as_mut().poll(cx).is_ready())).await;
+            if !ready {
+                *h1.borrow_mut() = Some(fut);
+            }
+        });
+        // the probing poll happens first (the server binds and parks in accept, with the starter's waker published)
+        simcore::poll_task_now(starter);
+        simcore::spawn_task("server", "server", async move {
+            let f = h2.borrow_mut().take();
+            if let Some(f) = f {
+                f.await;
+            }
+        })
+    } else {
+        simcore::spawn_task("server", "server", async move {
+            app.howl(rt::ADDR).await;
+        })
+    };
     if sc.server_first {
         simcore::poll_task_now(server);
     }
